@@ -233,10 +233,11 @@ def check_c02(prog, rep, tier, cfg):
         rep.check(len(errs) >= 1, R, "first-token-conflict=>NoSolutionFound", "find_optimal_solution no longer reports NoSolutionFound for a first-token decision that contradicts the invariant")
     # ---------------------------------------------------------------- C02.d breaks are real line breaks
     R = "C02.d"
-    rs = prog.body(IOLF + "reconstruct_solution")
+    import layout as _layout0
+    rs = prog.inlined(IOLF + "reconstruct_solution", keep=_layout0.RS_KEEP)
     if rep.check(rs is not None, R, "anchor:reconstruct_solution", "reconstruct_solution not found"):
         vals = {}
-        for a in prog.field_accesses(LANG + "FormattingData", "newlines_before", within={rs.npath}):
+        for a in prog.field_accesses(LANG + "FormattingData", "newlines_before", bodies=[rs]):
             if not a[3].startswith("write"):
                 continue
             bb, s = a[1], a[4]
